@@ -42,11 +42,16 @@ ALPHA = {
     "create_db2_schema": ("create schema db2.s2", {"db2", "!s2", "!tx"}, {"s2"}, set()),
     "create_db2_table": ("create table db2.s2.u (z int, w varchar(3)) comment = 'cu'", {"s2", "!u", "!tx"}, {"u"}, set()),
     "insert_db2": ("insert into db2.s2.u values (7, 'q')", {"u", "!tx"}, set(), set()),
+    # statements that FAIL (caught by the caller) - nothing changes, and what follows must still be committed
+    "failing_select": ("select * from table_that_is_missing", set(), set(), set()),
+    "executemany_fail": ("EM:insert into table_that_is_missing values (%s)|[[1],[2]]", set(), set(), set()),
+    "executemany_ok": ("EM:insert into t1 values (%s, %s)|[[5,\"e\"],[6,\"f\"]]", {"t1"}, {"rows"}, set()),
     "begin": ("begin", {"!tx"}, {"tx"}, set()),
     "commit": ("commit", {"tx"}, set(), {"tx"}),
     "rollback": ("rollback", {"tx"}, set(), {"tx"}),
 }
-QUICK_FIRST = ["create_t1", "create_plain", "create_db2", "begin", "create_schema"]
+QUICK_FIRST = ["create_t1", "create_plain", "create_db2", "begin", "create_schema", "executemany_fail", "failing_select"]
+EXPECT_ERROR = {"failing_select", "executemany_fail"}
 
 
 def enabled(facts, sid):
@@ -120,14 +125,24 @@ def clean_node(item, acc: core.Acc, tier):
         spec = {"dir": d, "history": sqls(h), "exit": mode, "out": os.path.join(d, "out.json")}
         rc, res, err = crash.run_child(spec)
         acc.count("evaluations")
+        broken = None
         if res is None or res.get("pre_exit") is None:
-            raise core.HarnessError(f"child for history {h} mode {mode} produced no observation: rc={rc} {err}")
-        if res["errors"]:
-            raise core.HarnessError(f"history {h} contains a failing statement: {res['errors']}")
-        os.remove(spec["out"])
-        obs, problems = crash.observe_dir(d)
+            # never happens on a tree where every statement of the alphabet works (a harness bug would show up on the
+            # unchanged tree at once); on a changed tree it is a statement of the history failing unexpectedly
+            broken = {"child_rc": rc, "stderr": err[-300:], "errors": (res or {}).get("errors")}
+        else:
+            unexpected = [e for e in res["errors"] if h[e[0]] not in EXPECT_ERROR]
+            if unexpected or len(res["errors"]) != sum(1 for x in h if x in EXPECT_ERROR):
+                broken = {"errors": res["errors"]}
+        if broken is None:
+            os.remove(spec["out"])
+            obs, problems = crash.observe_dir(d)
     finally:
         shutil.rmtree(d, ignore_errors=True)
+    if broken is not None:
+        acc.violation("C18.history_runs", f"last={last},after={'+'.join(x for x in h[:-1] if x in EXPECT_ERROR) or 'plain'}", broken, rp)
+        acc.obs((h, mode, "broken"))
+        return {"history": h, "mode": mode, "calls": 0, "log": [], "obs": None, "broken": True}
     acc.obs((h, mode, rc, res["calls_last"], repr(strip(obs))))
     acc.outcome((mode, rc, core.h(repr(strip(obs)))))
     intx = (in_tx_before_last(h) and last not in ("commit", "rollback")) or last == "begin"
@@ -136,6 +151,14 @@ def clean_node(item, acc: core.Acc, tier):
         acc.violation("C18.reopen_works", cls, {"problems": problems}, rp)
     elif strip(obs) != res["pre_exit"]:
         acc.violation("C18.committed_survives_exit", cls, {"diff": _diff(res["pre_exit"], strip(obs))}, rp)
+    # outside a transaction every acknowledged statement is committed at once: an independent connection must see
+    # exactly what the session itself sees (otherwise the work sits in a transaction nobody asked for and is lost)
+    open_tx = (in_tx_before_last(h) and last not in ("commit", "rollback")) or last == "begin"
+    if mode == "clean" and not open_tx and res.get("own_view") is not None and res["own_view"] != res["pre_exit"]:
+        acc.violation(
+            "C18.autocommit_is_committed", f"history_has={'+'.join(sorted(set(x for x in h if x in EXPECT_ERROR or x.startswith('executemany')))) or 'plain'},last={last}",
+            {"diff_own_vs_committed": _diff(res["pre_exit"], res["own_view"])}, rp,
+        )
     if mode == "clean":
         out.update(calls=res["calls_last"], log=res.get("log"), obs=strip(obs), reported=(obs or {}).get("reported"))
     acc.nontrivial(("node", tuple(h), mode))
@@ -284,7 +307,12 @@ def run(ctx: core.Ctx):
         if in_tx_before_last(h) and h[-1] not in ("commit",):
             # uncommitted work: present == absent == committed state; both come from clean exits (implicit rollback)
             pass
-        for k in list(range(1, (n["calls"] or 0) + 1)) + [0]:
+        if n.get("broken") or (h and nodes[tuple(h[:-1])].get("broken")):
+            continue
+        ks = list(range(1, (n["calls"] or 0) + 1)) + [0]
+        if h and h[-1].startswith("executemany"):
+            ks = [0]  # executemany is a sequence of statements, each atomic on its own: only "after it returned" is demanded
+        for k in ks:
             items.append((h, k, absent, present, n["log"]))
     ctx.pmap(crash_point, items, chunk=1, recheck=False)
     ctx.pmap(memory_control, [0], parallel=False, recheck=False)
